@@ -514,7 +514,8 @@ class VM:
 
                 def check_timeout() -> bool:
                     """Return True if time limit exceeded (to abort regex)."""
-                    return time.monotonic() - self.start_time > self.time_limit
+                    vm = self._live()  # the evaluation that is using the regex now
+                    return time.monotonic() - vm.start_time > vm.time_limit
 
                 poll_callback = check_timeout
             regex = JSRegExp(pattern, flags, poll_callback)
@@ -2600,8 +2601,8 @@ class VM:
                 if self.time_limit is None:
                     internal._poll_callback = None
                 else:
-                    internal._poll_callback = (
-                        lambda: time.monotonic() - self.start_time > self.time_limit
+                    internal._poll_callback = lambda: (
+                        time.monotonic() - self._live().start_time > self.time_limit
                     )
 
     def _call_method(
